@@ -219,7 +219,10 @@ pub struct Violation {
     pub step: usize,
 }
 
+pub static COLLECT: std::sync::atomic::AtomicBool = std::sync::atomic::AtomicBool::new(false);
+
 pub struct RunResult {
+    pub collected: BTreeMap<(String, String), (u64, String)>,
     pub run: u64,
     pub mode: Mode,
     pub cfg: WorldCfg,
@@ -243,7 +246,9 @@ pub fn run_one(seed: u64, prop: &PropCfg, run: u64, known: &[KnownFinding]) -> R
     let mode = prop.modes[(run % prop.modes.len() as u64) as usize];
     let mut rng = Prng::for_run(seed, prop.id, run);
     let (cfg, amt) = gen::world_for(mode, &mut rng);
+    let collect = COLLECT.load(Ordering::Relaxed);
     let mut res = RunResult {
+        collected: BTreeMap::new(),
         run,
         mode,
         cfg: cfg.clone(),
@@ -301,6 +306,11 @@ pub fn run_one(seed: u64, prop: &PropCfg, run: u64, known: &[KnownFinding]) -> R
             }
             if let Some(i) = is_known(known, &f) {
                 *res.known_hits.entry(i).or_insert(0) += 1;
+                continue;
+            }
+            if collect {
+                let e = res.collected.entry((f.rule.to_string(), f.sig.clone())).or_insert((0, f.detail.clone()));
+                e.0 += 1;
                 continue;
             }
             res.violation = Some(Violation { finding: f, step: exec.steps });
@@ -472,6 +482,7 @@ pub fn minimise(cfg: &WorldCfg, ops: &[Op], prop: &PropCfg, known: &[KnownFindin
 // ------------------------------------------------------------------------------------------
 
 pub struct BatchResult {
+    pub collected: BTreeMap<(String, String), (u64, String)>,
     pub runs_done: u64,
     pub first_violation: Option<RunResult>,
     pub known_hits: BTreeMap<usize, u64>,
@@ -518,6 +529,7 @@ pub fn run_batch(seed: u64, prop: &PropCfg, known: &[KnownFinding], workers: usi
     all.sort_by_key(|r| r.run);
     let cutoff = min_bad.load(Ordering::SeqCst);
     let mut b = BatchResult {
+        collected: BTreeMap::new(),
         runs_done: 0,
         first_violation: None,
         known_hits: BTreeMap::new(),
@@ -535,6 +547,10 @@ pub fn run_batch(seed: u64, prop: &PropCfg, known: &[KnownFinding], workers: usi
             continue;
         }
         b.runs_done += 1;
+        for (k, v) in &r.collected {
+            let e = b.collected.entry(k.clone()).or_insert((0, v.1.clone()));
+            e.0 += v.0;
+        }
         b.stats.merge(&r.stats);
         for (k, v) in &r.reach {
             *b.reach.entry(k).or_insert(0) += v;
